@@ -138,6 +138,13 @@ pub open spec fn parse_post(pre: PState, post: PState, line: Seq<u8>, decode: bo
                 }
         }))
 }
+/// C19 at the parser level: whatever is returned (Complete or Incomplete) reports the type of THIS line's payload
+pub open spec fn parse_C19(line: Seq<u8>, r: Result<AisFragments>) -> bool {
+    r is Ok ==> mtype_at(line, n_d(line) + 1, match r->Ok_0 { AisFragments::Complete(s) => s.message_type, AisFragments::Incomplete(s) => s.message_type })
+}
+pub open spec fn parse_KFD4(line: Seq<u8>, r: Result<AisFragments>) -> bool {
+    r is Ok ==> mtype_kfd4(line, n_d(line) + 1, match r->Ok_0 { AisFragments::Complete(s) => s.message_type, AisFragments::Incomplete(s) => s.message_type })
+}
 /// C02: the checksum gate
 pub open spec fn parse_C02(line: Seq<u8>, decode: bool, r: Result<AisFragments>) -> bool {
     &&& (n_ok(line) && xor_spec(n_raw(line)) as int != n_ck(line) ==>
@@ -281,7 +288,7 @@ def apply(fc):
         fc.lemma(nm, tg)
     fc.contract('new', within='impl AisParser', ensures=['r@ == (PState { id: None, num: 0, data: Seq::empty() })', 'r.inv()'], tags=['C05', 'C17'])
     fc.contract('parse', within='impl AisParser', requires=['line_small(line@.len() as int)', 'old(self).inv()'],
-                ensures=['parse_post(old(self)@, final(self)@, line@, decode, r)', 'parse_C02(line@, decode, r)', 'final(self).inv()'], tags=['C02', 'C05', 'C06', 'C07', 'C08', 'C17'])
+                ensures=['parse_post(old(self)@, final(self)@, line@, decode, r)', 'parse_C02(line@, decode, r)', 'parse_C19(line@, r)', 'parse_KFD4(line@, r)', 'final(self).inv()'], tags=['C02', 'C05', 'C06', 'C07', 'C08', 'C17'])
     fc.contract('verify_and_extend_data', within='impl AisParser',
                 ensures=['(old(self).message_id == ais_sentence.message_id && ais_sentence.fragment_number as int == old(self).fragment_number + 1) <==> r is Ok',
                          'r is Err ==> final(self)@ == old(self)@ && !(r->Err_0 is Checksum)',
